@@ -434,7 +434,7 @@ func (w *World) VerifShape() (string, string) {
 			h.Write(verifBytes(lay.pointer, int(lay.itemSize)*int(a.len)))
 		}
 		h.Write(verifBytes(a.entityPointer, int(entitySize)*int(a.len)))
-		if a.len == 0 && a.node.HasRelation {
+		if a.len == 0 {
 			// empty relation tables are not observable
 			continue
 		}
@@ -468,7 +468,7 @@ func (w *World) VerifShape() (string, string) {
 				set = append(set, "nil")
 				continue
 			}
-			if a.len == 0 && a.node.HasRelation {
+			if a.len == 0 {
 				continue
 			}
 			set = append(set, fmt.Sprintf("%s@%d:%d", verifMaskString(&a.Mask), int(a.RelationTarget.id), int(a.RelationTarget.gen)))
